@@ -961,6 +961,10 @@ fn start_storescp(check: &Check, non_blocking: bool, out: &std::path::Path) -> R
     if !exe.is_file() {
         return Err(format!("{} not found (pre-step did not build the tools?)", exe.display()));
     }
+    // Port choice, spawn and readiness probe are serialised: two servers started at the same time could
+    // otherwise be handed the same free port, and the probe of one would be answered by the other.
+    static START: std::sync::Mutex<()> = std::sync::Mutex::new(());
+    let _guard = START.lock().unwrap_or_else(|e| e.into_inner());
     for _attempt in 0..5 {
         let port = std::net::TcpListener::bind("127.0.0.1:0").and_then(|l| l.local_addr()).map_err(|e| e.to_string())?.port();
         let mut cmd = std::process::Command::new(&exe);
@@ -975,7 +979,12 @@ fn start_storescp(check: &Check, non_blocking: bool, out: &std::path::Path) -> R
                 break; // port taken meanwhile: try another
             }
             if std::net::TcpStream::connect(("127.0.0.1", port)).is_ok() {
-                return Ok(srv);
+                // the answer must come from OUR child: it has to be still alive a moment later
+                std::thread::sleep(std::time::Duration::from_millis(50));
+                if let Ok(None) = srv.child.try_wait() {
+                    return Ok(srv);
+                }
+                break;
             }
             std::thread::sleep(std::time::Duration::from_millis(25));
         }
@@ -1038,7 +1047,7 @@ fn part4(check: &Check, scp: &Model) {
         }
         let out = scratch.join(mode);
         let _ = std::fs::create_dir_all(&out);
-        let srv = match start_storescp(l.check, non_blocking, &out) {
+        let mut srv = match start_storescp(l.check, non_blocking, &out) {
             Ok(s) => s,
             Err(e) => {
                 l.check.machinery_error(&format!("storescp ({mode}): {e}"));
@@ -1051,7 +1060,23 @@ fn part4(check: &Check, scp: &Model) {
                 continue;
             }
             l.eval();
-            match tool_word(srv.port, w, wi as u32) {
+            let mut res = tool_word(srv.port, w, wi as u32);
+            if res.is_err() {
+                // environment or verdict? run the word once more against a FRESH server process; only a
+                // failure that reproduces there is attributed to the word
+                match start_storescp(l.check, non_blocking, &out) {
+                    Ok(s) => {
+                        srv = s;
+                        l.outcome("tool-word-retried-on-fresh-server");
+                        res = tool_word(srv.port, w, wi as u32);
+                    }
+                    Err(e) => {
+                        l.check.machinery_error(&format!("storescp ({mode}) restart: {e}"));
+                        return;
+                    }
+                }
+            }
+            match res {
                 Err(e) => {
                     l.outcome("tool-no-answer");
                     l.fail(&case_id, json!({"part": "tool", "mode": mode, "kind": "scp-stopped-answering", "last": w.chars().last().map(|c| c.to_string())}), json!({"word": w, "error": e}));
